@@ -75,6 +75,8 @@ def _make_body(i, awaits, oc):
                 return oc[1] if i % 2 == 0 else ps.Stop(oc[1], True)
             return plumpy.UnsuccessfulResult(oc[1]) if i % 2 == 0 else ps.Stop(oc[1], False)
         if k == 'kill':
+            if i % 2 == 0:
+                return ps.Kill()            # Kill without a message (msg=None) is as legal as Kill(msg)
             return ps.Kill(plumpy.process_comms.MessageBuilder.kill(KILL_CMD_MSG))
         if k == 'raise':
             self._raised.append((oc[1], self.has_terminated()))
@@ -207,6 +209,7 @@ CORPUS = collections.OrderedDict([
     ('Chain', chain_prog([[(0, 0)], []], 1)),
     ('Unsucc', {'kind': 'proc', 'nfut': 0, 'fns': {0: (1, ('cont', 1, [4, 5], {1: 6, 0: 7})), 1: (0, ('stop', 2, False))}}),
     ('KillCmd', {'kind': 'proc', 'nfut': 0, 'fns': {0: (1, ('cont', 1, [], {})), 1: (0, ('kill',))}}),
+    ('KillNoMsg', {'kind': 'proc', 'nfut': 0, 'fns': {0: (1, ('cont', 1, [], {})), 1: (0, ('cont', 2, [], {})), 2: (0, ('kill',))}}),
     ('WaitWait', {'kind': 'proc', 'nfut': 0, 'fns': {0: (0, ('wait', 1)), 1: (1, ('wait', 2)), 2: (0, ('stop', None, True))}}),
     ('Chain2', chain_prog([[(0, 0), (1, 1)], [(2, 0)], []], 3)),
     ('ChainCall', dict(chain_prog([[(0, 0)], [(1, 0), (2, 1)], []], 3), via='call')),
@@ -298,6 +301,27 @@ class Listener(plumpy.ProcessListener):
     def on_process_killed(self, p, m): self._hit('kil')
 
 
+class Leaver(plumpy.ProcessListener):
+    """a listener that unsubscribes itself from inside a notification (a one-shot observer): the set of listeners changes while
+    the notification is being delivered"""
+
+    def __init__(self, leave_at):
+        super().__init__()
+        self.leave_at = leave_at
+
+    def _hit(self, name, proc):
+        if name in self.leave_at:
+            proc.remove_process_listener(self)
+
+    def on_process_running(self, p): self._hit('run', p)
+    def on_process_waiting(self, p): self._hit('wai', p)
+    def on_process_paused(self, p): self._hit('pau', p)
+    def on_process_played(self, p): self._hit('pla', p)
+    def on_process_finished(self, p, o): self._hit('fin', p)
+    def on_process_excepted(self, p, r): self._hit('exc', p)
+    def on_process_killed(self, p, m): self._hit('kil', p)
+
+
 class Run:
     """One real process under the deterministic loop. `do(op)` performs an environment op, `tick()` runs one callback;
     both append to .ops / .obs (the lines exchanged with the model) and to the raw records the monitors read."""
@@ -327,8 +351,22 @@ class Run:
             p.set_status(status0)
         self.entered = [p.state.value]
         p.add_state_event_callback(StateEventHook.ENTERED_STATE, lambda sm, h, st: self.entered.append(sm.state.value))
+        # a transition that STARTS from a terminal state (seen in its entering phase, whether or not the entered callbacks of the
+        # terminal state itself ran to the end)
+        self.left_terminal = []
+
+        def entering(sm, h, st):
+            cur = sm.state           # (the label of the current state)
+            if cur is not None and getattr(cur, 'value', None) in ('finished', 'excepted', 'killed') and st is not None:
+                self.left_terminal.append((cur.value, st.LABEL.value))
+        p.add_state_event_callback(StateEventHook.ENTERING_STATE, entering)
         self.lis = Listener(self, plan)
         p.add_process_listener(self.lis)
+        p.add_process_listener(self.lis)          # subscribing twice is subscribing once (exactly one notification per event)
+        # one-shot observers leaving at different notifications (two per kind, so that the set shrinks DURING the delivery)
+        self.leavers = [Leaver({k}) for k in ('run', 'wai', 'pau', 'fin', 'exc', 'kil') for _ in (0, 1)]
+        for lv in self.leavers:
+            p.add_process_listener(lv)
         self.term_trans = False          # a planned request is being issued from inside the transition into a terminal state
         self.in_stepper = False          # the callback that is running is the stepping task's
         self.term_kills = []
@@ -662,10 +700,37 @@ def monitor(name):
     return deco
 
 
+def fail_fast(ctx, cases, monitors, n_probe=1200, timeout=600):
+    """A probe before the full exploration: every k-th case (about `n_probe` of them) in a fresh pool, in their enumeration order
+    inside each worker.  If a monitor already fails there, the exploration is cut down to the probe — the failing input is
+    reported within seconds instead of after the whole enumeration (which a broken tree can make arbitrarily slow, e.g. when
+    state accumulates across runs).  On the unchanged tree the probe finds nothing and costs ~1 % extra."""
+    import multiprocessing as mp
+    if len(cases) <= 2 * n_probe or getattr(ctx, 'search', False):
+        return cases
+    stride = max(1, len(cases) // n_probe)
+    probe = cases[::stride]
+    work = [(c[1], c[2], monitors) + ((c[3],) if len(c) > 3 else ()) for c in probe]
+    pool = mp.Pool(ctx.workers)
+    try:
+        recs = pool.map_async(_work, work, chunksize=8).get(timeout=timeout)
+    except mp.TimeoutError:
+        pool.terminate()
+        ctx.note(f'probe of {len(probe)} cases did not complete within {timeout} s')
+        return cases
+    finally:
+        pool.terminate()
+    if any(r['failures'] for r in recs):
+        ctx.note(f'probe of {len(probe)} cases already fails: exploration cut down to the probe')
+        return probe
+    return cases
+
+
 def explore(ctx, cases, monitors, chunk=400):
     """cases: list of (progname, prog, schedule). Runs the real code (parallel), the model, diffs per op.
     Returns dict(evaluations, distinct, divergences, failures, histograms, samples, traces_validated)."""
     import multiprocessing as mp
+    cases = fail_fast(ctx, cases, monitors)
     work = [(prog, sched, monitors) for _, prog, sched in cases]
     with mp.Pool(ctx.workers) as pool:
         recs = pool.map(_work, work, chunksize=64)
@@ -769,6 +834,7 @@ def explore_listeners(ctx, cases, monitors, chunk=400):
     after every op, with the process-control model with listeners (lean/PlumpyModel/PM/Listener.lean, `pmodel pml`), which gets
     the same program, the plan and the ops the harness performed."""
     import multiprocessing as mp
+    cases = fail_fast(ctx, cases, monitors)
     work = [(prog, sched, monitors, plan) for _, prog, sched, plan in cases]
     with mp.Pool(ctx.workers) as pool:
         recs = pool.map(_work, work, chunksize=64)
